@@ -96,12 +96,14 @@ def run(ctx, B):
             ctx.add(nontrivial=int(((r["flags"] & F_ERR) == 0).sum()) + len(set(r["msghash"][(r["flags"] & F_ERR) != 0].tolist())))
         # --- MemorySanitizer: a value computed from uninitialised stack or heap memory (an undefined access) reaches the caller.
         #     The driver tests the shadow of every returned value and counts every report the MSan runtime prints.
-        if cfg == "A" or not quick:
+        if True:
             XM = xrl.Xrl("msan", cfg, build=B)
             mcap = 40000 if quick else 400000
             for p0 in plans:
                 if ctx.expired():
                     break
+                if cfg == "K" and quick and not re.search(r"Kissel|Photo_Partial|Photo_Total|Cascade|ElectronConfig", p0.name):
+                    continue              # quick: configuration K adds only the entry points that do real work with the Kissel table
                 p, st = strided(p0, mcap, ctx.seed + 1)
                 rm = c03.run_plan(XM, p, 0, ctx, cfg, variant="msan")
                 ctx.add(evaluations=p.n)
